@@ -32,6 +32,7 @@ package main
 
 import (
 	"fmt"
+	"math"
 	"strconv"
 	"strings"
 
@@ -196,6 +197,7 @@ type monResult struct {
 
 type mon struct {
 	k     *Case
+	doc   *Node
 	specs []*exclSpec
 	hash  func(string) string
 	res   monResult
@@ -215,7 +217,7 @@ func (m *mon) hit(sig, demanded, observed string) {
 
 func monitor(k *Case, doc, out *Node) monResult {
 	h := hasherOf(k.Hasher)
-	m := &mon{k: k, sigs: map[string]bool{}, hash: func(s string) string { return h.HashBytes([]byte(s)) }}
+	m := &mon{k: k, doc: doc, sigs: map[string]bool{}, hash: func(s string) string { return h.HashBytes([]byte(s)) }}
 	for _, e := range k.Excl {
 		m.specs = append(m.specs, denotation(k, doc, e))
 	}
@@ -244,6 +246,31 @@ func monitor(k *Case, doc, out *Node) monResult {
 	}
 	if doc.hasUncleanKeys() {
 		m.res.tags = append(m.res.tags, "keys-with-dot-or-bracket")
+	}
+	// distribution: digest-like strings; numbers that do not survive float64, excluded or not
+	dl, nf, nfx := false, false, false
+	doc.walk(nil, func(p []step, n *Node) {
+		switch {
+		case n.Kind == kStr && m.digestLike(n.S):
+			dl = true
+		case n.Kind == kNum:
+			f, _ := strconv.ParseFloat(n.S, 64)
+			if strconv.FormatFloat(f, 'g', -1, 64) != n.S && strconv.FormatFloat(f, 'f', -1, 64) != n.S {
+				nf = true
+				if strict, _, _ := m.coverage(p); strict {
+					nfx = true
+				}
+			}
+		}
+	})
+	if dl {
+		m.res.tags = append(m.res.tags, "digest-like-string")
+	}
+	if nf {
+		m.res.tags = append(m.res.tags, "number-not-float64-roundtrip")
+	}
+	if nfx {
+		m.res.tags = append(m.res.tags, "number-not-float64-roundtrip-excluded")
 	}
 	if doc.hasDupKeys() {
 		m.res.tags = append(m.res.tags, "repeated-keys")
@@ -281,6 +308,9 @@ func (m *mon) count(in, out *Node) {
 	}
 }
 
+// sameLeaf: b shows the value of a — the same string / boolean, the same number
+// exactly or up to what a float64 holds (used to recognise an EXPOSURE: a hidden
+// leaf must not come back as a number that is, or rounds to, the input).
 func sameLeaf(a, b *Node) bool {
 	if a.Kind != b.Kind {
 		return false
@@ -291,14 +321,65 @@ func sameLeaf(a, b *Node) bool {
 	case kBool:
 		return a.B == b.B
 	case kNum:
-		if a.S == b.S {
+		if sameNumber(a.S, b.S) {
 			return true
 		}
 		x, e1 := strconv.ParseFloat(a.S, 64)
 		y, e2 := strconv.ParseFloat(b.S, 64)
-		return e1 == nil && e2 == nil && x == y
+		return (e1 == nil || math.IsInf(x, 0)) && (e2 == nil || math.IsInf(y, 0)) && x == y
 	}
 	return true
+}
+
+// verbatimLeaf: b is a VERBATIM (what the property demands of a value on an
+// excluded path).  A number is compared by its JSON text: a number read into a
+// float64 and printed again is another text and, beyond 2^53 or 17 significant
+// digits, another value (9007199254740993 -> 9.007199254740992e+15).
+func verbatimLeaf(a, b *Node) bool {
+	if a.Kind == kNum && b.Kind == kNum {
+		return a.S == b.S
+	}
+	return sameLeaf(a, b)
+}
+
+// notKeptSig: root-cause class of an excluded leaf that did not come back verbatim
+func notKeptSig(in, out *Node) string {
+	if in.Kind == kNum && out.Kind == kNum {
+		if sameNumber(in.S, out.S) {
+			return "excluded-not-kept:number-respelled"
+		}
+		return "excluded-not-kept:number-changed"
+	}
+	return "excluded-not-kept"
+}
+
+// digestLike: the string has the look of a digest / of already obfuscated data
+// (hex digits, dashes allowed, at least 16 of them), or is the digest of another
+// leaf of the document.  Only names the root-cause class of an exposure.
+func (m *mon) digestLike(s string) bool {
+	hex := 0
+	ok := true
+	for _, ch := range s {
+		switch {
+		case ch >= '0' && ch <= '9', ch >= 'a' && ch <= 'f', ch >= 'A' && ch <= 'F':
+			hex++
+		case ch == '-':
+		default:
+			ok = false
+		}
+	}
+	if ok && hex >= 16 {
+		return true
+	}
+	found := false
+	if m.doc != nil {
+		m.doc.walk(nil, func(_ []step, n *Node) {
+			if n.isLeaf() && m.hash(leafText(n)) == s {
+				found = true
+			}
+		})
+	}
+	return found
 }
 
 func (m *mon) hiddenOK(in, out *Node) bool {
@@ -315,16 +396,24 @@ func (m *mon) hiddenOK(in, out *Node) bool {
 		if out.S == m.hash(in.S) {
 			return true
 		}
+		// (of the float64 nearest to it — an infinity for a token such as 1e400 —
+		// and of the exact value)
 		f, err := strconv.ParseFloat(in.S, 64)
-		if err != nil {
-			return false
-		}
-		if out.S == m.hash(strconv.FormatFloat(f, 'g', -1, 64)) {
-			return true
-		}
-		for prec := -1; prec <= 6; prec++ {
-			if out.S == m.hash(strconv.FormatFloat(f, 'f', prec, 64)) {
+		if err == nil || math.IsInf(f, 0) {
+			if out.S == m.hash(strconv.FormatFloat(f, 'g', -1, 64)) || out.S == m.hash(strconv.FormatFloat(f, 'e', -1, 64)) {
 				return true
+			}
+			for prec := -1; prec <= 6; prec++ {
+				if out.S == m.hash(strconv.FormatFloat(f, 'f', prec, 64)) {
+					return true
+				}
+			}
+		}
+		if r := numRat(in.S); r != nil {
+			for prec := 0; prec <= 6; prec++ {
+				if out.S == m.hash(r.FloatString(prec)) {
+					return true
+				}
 			}
 		}
 		return false
@@ -426,7 +515,7 @@ func (m *mon) compare(in, out *Node, path []step) {
 		return
 	}
 	strict, lenient, amb := m.coverage(path)
-	verbatim := sameLeaf(in, out)
+	verbatim := verbatimLeaf(in, out)
 	hidden := m.hiddenOK(in, out)
 	digest := m.hash(leafText(in))
 	switch {
@@ -435,7 +524,7 @@ func (m *mon) compare(in, out *Node, path []step) {
 			m.res.kept++
 			return
 		}
-		m.hit("excluded-not-kept", fmt.Sprintf("leaf %s = %s lies on/under an excluded path (exclusions %q): kept verbatim",
+		m.hit(notKeptSig(in, out), fmt.Sprintf("leaf %s = %s lies on/under an excluded path (exclusions %q): kept verbatim",
 			showPath(path), in.show(), m.k.Excl), "output has "+out.show())
 	case lenient:
 		if verbatim && !hidden {
@@ -460,8 +549,11 @@ func (m *mon) compare(in, out *Node, path []step) {
 		}
 		dem := fmt.Sprintf("leaf %s = %s is not on or under a path denoted by any exclusion of %q: replaced by its digest %q",
 			showPath(path), in.show(), m.k.Excl, digest)
-		if verbatim {
+		if sameLeaf(in, out) {
 			sig := "exposed:other"
+			if in.Kind == kStr && m.digestLike(in.S) {
+				sig = "exposed:digest-like-value"
+			}
 			for n := 1; n <= len(path); n++ {
 				cur := cursorText(path[:n])
 				for _, e := range m.k.Excl {
@@ -584,7 +676,13 @@ func (m *mon) shapeDup(in, out *Node, path []step) []problem {
 			ps = append(ps, m.shapeDup(in.A[i], out.A[pos[key]], append(append([]step{}, path...), step{key: key}))...)
 		}
 	case len(dk) < len(in.K) && sameKeySet(dk, out.K): // (b)
-		ps = append(ps, problem{sigDupKeys,
+		// finding F-C16d is about the objects that are rebuilt; an object on or under an
+		// excluded path is to be kept verbatim, repeated keys included
+		sig := sigDupKeys
+		if strict, _, _ := m.coverage(path); strict {
+			sig = "excluded-not-kept:repeated-key-dropped"
+		}
+		ps = append(ps, problem{sig,
 			fmt.Sprintf("object %s keeps its %d members (keys %q)", showPath(path), len(in.K), in.K),
 			fmt.Sprintf("output has %d members (keys %q): one per distinct key", len(out.K), out.K)})
 		for j, key := range out.K {
@@ -661,15 +759,28 @@ func (m *mon) safety(doc, out *Node) {
 			if m.hiddenOK(in, o) {
 				return
 			}
-			if (strict || lenient) && sameLeaf(in, o) {
+			if (strict || lenient) && verbatimLeaf(in, o) {
 				return
+			}
+		}
+		if strict || lenient {
+			for _, in := range cands {
+				if sameLeaf(in, o) {
+					m.hit(notKeptSig(in, o), fmt.Sprintf("output leaf %s lies on/under a path denoted by an exclusion of %q: an input leaf at that path, verbatim",
+						showPath(q), m.k.Excl), fmt.Sprintf("output has %s for the input leaf %s", o.show(), in.show()))
+					return
+				}
 			}
 		}
 		dem := fmt.Sprintf("output leaf %s is the digest of an input leaf at that path, or an input leaf at that path on/under a path denoted by an exclusion of %q",
 			showPath(q), m.k.Excl)
 		for _, in := range cands {
 			if sameLeaf(in, o) {
-				m.hit("exposed:other", dem, "kept verbatim: "+o.show())
+				sig := "exposed:other"
+				if in.Kind == kStr && m.digestLike(in.S) {
+					sig = "exposed:digest-like-value"
+				}
+				m.hit(sig, dem, "kept verbatim: "+o.show())
 				return
 			}
 		}
